@@ -26,7 +26,7 @@ pub enum Corruption {
 #[derive(Clone, Debug, Serialize, Deserialize, PartialEq, Eq, Hash)]
 pub enum Op {
     New { variant: u16, full: bool },
-    Field { rec: u16, field: u16, access: Access, on_stack: bool },
+    Field { rec: u16, field: u16, access: Access, place: u8 },
     Rebox { rec: u16 },
     Unpack { rec: u16 },
     Drop { rec: u16 },
@@ -72,8 +72,9 @@ fn corruption() -> impl Strategy<Value = Corruption> {
 /// Weights of the operation kinds per property.
 pub fn op_strategy(prop: &str) -> BoxedStrategy<Op> {
     let new = (any::<u16>(), prop::bool::weighted(0.6)).prop_map(|(variant, full)| Op::New { variant, full });
-    let field = (any::<u16>(), any::<u16>(), access(), any::<bool>())
-        .prop_map(|(rec, field, access, on_stack)| Op::Field { rec, field, access, on_stack });
+    // place: 0 heap (Box), 1 stack, 2 heap address aligned for the record type and no more
+    let field = (any::<u16>(), any::<u16>(), access(), 0u8..3)
+        .prop_map(|(rec, field, access, place)| Op::Field { rec, field, access, place });
     let rebox = any::<u16>().prop_map(|rec| Op::Rebox { rec });
     let unpack = any::<u16>().prop_map(|rec| Op::Unpack { rec });
     let drop = any::<u16>().prop_map(|rec| Op::Drop { rec });
